@@ -1,6 +1,6 @@
 """Contracts on a816/parse/codegen.py (C10 conditionals and loops, C09 macros, C08 scope structure)."""
 from a816.exceptions import SymbolNotDefined
-from a816.parse.codegen import _code_gen, generate_compound, generate_for, generate_if, generate_macro, generate_macro_application, generate_scope
+from a816.parse.codegen import _code_gen, generate_assign, generate_compound, generate_for, generate_if, generate_macro, generate_macro_application, generate_scope
 from a816.parse.nodes import ByteNode, LabelNode, PopScopeNode, ScopeNode, SymbolNode
 from a816.symbols import InternalScope, NamedScope
 from vf.contracts.rt import assume, check, ghost
@@ -56,6 +56,19 @@ def generate_for_contract(node, resolver, tok, a, b, expected_names):
     check("balanced_scope_nodes", len(opens) == len(closes) and len(opens) == len(new_scopes))
     if count > 0:
         check("iteration_brackets", isinstance(code[0], ScopeNode) and isinstance(code[len(code) - 1], PopScopeNode))
+
+
+# ------------------------------------------------------------------------------------------------ `:=` binds in the current scope only (C08)
+def generate_assign_frame_contract(node, resolver, tok, outer_value, value):
+    """`name := expr` inside a scope whose enclosing scope already binds the name: the name is bound in the CURRENT scope (shadowing); the
+    enclosing scope's binding is untouched; nothing is emitted and no scope is opened."""
+    inner = resolver.current_scope
+    outer = inner.parent
+    code = generate_assign(node, resolver, {}, tok)
+    check("bound_in_the_current_scope", inner.symbols.get(node.symbol) == value)
+    check("enclosing_binding_untouched", outer.symbols.get(node.symbol) == outer_value)
+    check("nothing_emitted", len(code) == 0)
+    check("current_scope_unchanged", resolver.current_scope is inner)
 
 
 # ------------------------------------------------------------------------------------------------ macros (C09)
@@ -142,10 +155,13 @@ def deferred_application_contract(macro_def, apply_node, resolver, tok, addr, la
     check("application_scope_still_current", resolver.current_scope is app_scope)
 
 
-def code_block_argument_contract(macro_def, apply_node, resolver, tok, expected_labels):
+def code_block_argument_contract(macro_def, apply_node, resolver, tok, expected_labels, expected_scopes):
     """A code-block argument is expanded wherever the parameter is spliced -- also from a scope nested inside the macro body."""
     defs = {}
     generate_macro(macro_def, resolver, defs, tok)
     code = generate_macro_application(apply_node, resolver, defs, tok)
     check("block_spliced_where_referenced", label_names(code) == expected_labels)
     check("call_site_scope_restored", resolver.current_scope is resolver.scopes[0])
+    # the block is expanded IN PLACE: the splice opens no scope of its own, so what the block defines is visible to the rest of the macro body
+    opened = [n for n in code if isinstance(n, ScopeNode)]
+    check("splice_opens_no_scope_of_its_own", len(opened) == expected_scopes)
